@@ -269,7 +269,7 @@ def async_case(draw, driver=None):
                 if o == "value":
                     c["oc"] = ["value", draw(st.one_of(st.sampled_from([0, 1, 254, 255]), st.integers(0, 255)))]
                 elif o == "error":
-                    c["oc"] = ["error", 0x55]
+                    c["oc"] = ["error", draw(st.sampled_from([0x55, 0x54, 0xAA, 0xAB, 0xFF, 0x00]))]
                 else:
                     c["oc"] = ["silent"]
             cmds.append(c)
